@@ -1,4 +1,5 @@
 import Grexv.Model.Api
+import Grexv.Model.ApiCli
 import Grexv.Lemmas.Lines
 
 /-!
